@@ -1,18 +1,22 @@
 package main
 
-// A partial path interpreter over SSA: integers, booleans, "the k-th input tensor", its shape and the receiver
-// are tracked exactly, everything else is unknown. A branch on a known condition is followed, a branch on an
-// unknown condition forks. It is NOT execution of the library: no gonnx or gorgonia code runs, the walk is over
-// the instruction graph with a handful of symbolic atoms bound to small integers (a finite table), and every
-// value it cannot follow is simply unknown — an unknown never produces a report.
+// A partial path interpreter over SSA: integers, booleans, lists of integers, "the k-th input tensor", its
+// shape, its data and the receiver are tracked exactly, everything else is unknown. A branch on a known
+// condition is followed, a branch on an unknown condition forks. It is NOT execution of the library: no gonnx
+// or gorgonia code runs, the walk is over the instruction graph with a handful of symbolic atoms bound to
+// small integers (a finite table), and every value it cannot follow is simply unknown — an unknown never
+// produces a report.
 //
-// Used by R9f (no valid axis is refused): for every rank r and every valid spelling a of the axis the walk
-// looks for a branch whose condition is fully determined by (a, r) and whose taken edge always returns an error.
+// Used by R9f (no valid axis is refused, the axis handed on is the requested one): for every rank r and every
+// valid spelling of the axis / axes list the walk looks for a branch whose condition is fully determined by the
+// table cell and whose taken edge always returns an error, and compares the values that reach gorgonia.
 
 import (
 	"go/constant"
 	"go/token"
 	"go/types"
+	"sort"
+	"strings"
 
 	"golang.org/x/tools/go/ssa"
 )
@@ -23,29 +27,79 @@ const (
 	pUnknown pkind = iota
 	pInt
 	pBool
-	pTensor // the i-th element of Apply's inputs
-	pShape  // Shape() of the i-th input
-	pRecv   // the operator receiver
-	pInputs // Apply's inputs slice
+	pTensor   // the i-th element of Apply's inputs
+	pShape    // Shape() of the i-th input
+	pData     // Data() of the i-th input
+	pRecv     // the operator receiver
+	pInputs   // Apply's inputs slice
+	pNil      // a nil interface / pointer / error
+	pList     // a []int (or *[N]int) with known content: heap id i
+	pElemAddr // address of element j of list i
+	pDimAddr  // address of extent j of the shape of input i
+	pShapeOpt // tensor.WithShape(shape of input i...)
+	pShaped   // a tensor built with the shape of input i (its data is unknown); j: heap id of its live shape
+	pRevList  // sort.Reverse(sort.IntSlice(list i))
+	pFunc     // a function value (fn)
+	pSym      // an unknown that must be decided consistently along a path: receiver field i (b: negated)
+	pNonNil   // an interface / pointer / error known not to be nil (refined on the edge of a nil test)
+	pPoison   // a value the walk once knew and lost (forgotten list, disagreeing callee paths): never branch on it
 )
 
 type pval struct {
 	k   pkind
 	i   int64
+	j   int64
 	b   bool
 	dep bool // derives from the seeded user value
+	fn  *ssa.Function
+}
+
+type pheap struct {
+	lists  map[int64][]pval // nil entry: content unknown
+	poison map[int64]bool   // lists whose content was known and forgotten
+	next   int64
+}
+
+func (h *pheap) clone() *pheap {
+	n := &pheap{lists: make(map[int64][]pval, len(h.lists)), poison: make(map[int64]bool, len(h.poison)), next: h.next}
+	for k := range h.poison {
+		n.poison[k] = true
+	}
+	for k, v := range h.lists {
+		if v != nil {
+			n.lists[k] = append([]pval{}, v...)
+		} else {
+			n.lists[k] = nil
+		}
+	}
+	return n
+}
+
+func (h *pheap) alloc(v []pval) pval {
+	h.next++
+	h.lists[h.next] = v
+	return pval{k: pList, i: h.next}
 }
 
 type pinterp struct {
-	c        *Ctx
-	budget   int
-	aborted  bool
-	field    func(named *types.Named, idx int) (pval, bool) // value of a receiver field
-	rankOf   func(input int64) (int64, bool)
-	callSeed func(call *ssa.Call) (pval, bool) // value of a designated call (attribute getter)
-	onReject func(fn *ssa.Function, iff *ssa.If, truth bool)
-	onExt    func(fn *ssa.Function, call *ssa.Call, key string, operands []pval)
-	decided  int // branches on a known condition that depends on the seed
+	c         *Ctx
+	budget    int
+	aborted   bool
+	field     func(h *pheap, named *types.Named, idx int) (pval, bool) // value of a receiver field
+	rankOf    func(input int64) (int64, bool)
+	extentOf  func(input, axis int64) (int64, bool)
+	present   func(input int64) bool               // optional input supplied? (nil func: unknown)
+	inputList func(input int64) ([]int64, bool)    // integer content of a tensor-valued list input
+	callSeed  func(call *ssa.Call) (pval, bool)    // value of a designated call (attribute getter)
+	onReject  func(fn *ssa.Function, iff *ssa.If, truth bool)
+	onPanic   func(fn *ssa.Function, in ssa.Instruction, what string)
+	onExt     func(fn *ssa.Function, call *ssa.Call, key string, operands []pval, h *pheap)
+	onLib     func(fn *ssa.Function, call *ssa.Call, callee *ssa.Function, args []pval, h *pheap)
+	onDyn     func(fn *ssa.Function, call *ssa.Call, args []pval, h *pheap) ([]pval, bool) // call through a function value
+	onReduce  func(fn *ssa.Function, call *ssa.Call, name string, shape []int64, axes []int64)  // a gorgonia reduction on a tensor of known shape
+	decided   int // branches on a known condition that depends on the seed
+	hdrCache  map[*ssa.Function]bool
+	listReads int
 }
 
 type pframe struct {
@@ -53,10 +107,16 @@ type pframe struct {
 	tuples map[ssa.Value][]pval
 	visits map[*ssa.BasicBlock]int
 	fields map[int]pval // receiver fields stored on this path (by field index)
+	heap   *pheap
+	forked *bool // set when any branch below this call was taken on an unknown condition
+	syms   map[int64]bool // decisions taken on symbolic unknowns along this path
 }
 
 func (f *pframe) clone() *pframe {
-	n := &pframe{env: make(map[ssa.Value]pval, len(f.env)), tuples: make(map[ssa.Value][]pval, len(f.tuples)), visits: make(map[*ssa.BasicBlock]int, len(f.visits)), fields: make(map[int]pval, len(f.fields))}
+	n := &pframe{env: make(map[ssa.Value]pval, len(f.env)), tuples: make(map[ssa.Value][]pval, len(f.tuples)), visits: make(map[*ssa.BasicBlock]int, len(f.visits)), fields: make(map[int]pval, len(f.fields)), heap: f.heap.clone(), forked: f.forked, syms: make(map[int64]bool, len(f.syms))}
+	for k, v := range f.syms {
+		n.syms[k] = v
+	}
 	for k, v := range f.fields {
 		n.fields[k] = v
 	}
@@ -72,43 +132,96 @@ func (f *pframe) clone() *pframe {
 	return n
 }
 
+type presult struct {
+	vals []pval
+	heap *pheap
+}
+
 // run interprets fn with the given parameter values and returns the merged results (unknown where the
-// returning paths disagree or a path was abandoned).
-func (p *pinterp) run(fn *ssa.Function, args []pval, depth int) []pval {
+// returning paths disagree or a path was abandoned) and, when exactly one path ran to a return without any
+// fork, the heap at that return (nil otherwise: the caller must forget what it knew about lists it passed).
+func (p *pinterp) run(fn *ssa.Function, args []pval, depth int, heap *pheap) ([]pval, *pheap) {
 	if len(fn.Blocks) == 0 {
-		return nil
+		return nil, nil
 	}
-	fr := &pframe{env: map[ssa.Value]pval{}, tuples: map[ssa.Value][]pval{}, visits: map[*ssa.BasicBlock]int{}, fields: map[int]pval{}}
+	if heap == nil {
+		heap = &pheap{lists: map[int64][]pval{}, poison: map[int64]bool{}}
+	}
+	forked := false
+	fr := &pframe{env: map[ssa.Value]pval{}, tuples: map[ssa.Value][]pval{}, visits: map[*ssa.BasicBlock]int{}, fields: map[int]pval{}, heap: heap, forked: &forked, syms: map[int64]bool{}}
 	for i, prm := range fn.Params {
 		if i < len(args) && args[i].k != pUnknown {
 			fr.env[prm] = args[i]
 		}
 	}
-	var results [][]pval
+	var results []presult
 	incomplete := false
 	p.walk(fn, fr, fn.Blocks[0], nil, depth, &results, &incomplete)
 	n := fn.Signature.Results().Len()
 	out := make([]pval, n)
 	if incomplete || len(results) == 0 {
-		return out
+		for i := range out {
+			out[i] = pval{k: pPoison}
+		}
+		return out, nil
+	}
+	// error paths (a definitely non-nil error result) are the caller's error branch; the values of the other
+	// paths are what the caller continues with
+	ei := -1
+	if n > 0 && isErrorType(fn.Signature.Results().At(n-1).Type()) {
+		ei = n - 1
+	}
+	var okPaths []presult
+	nErr := 0
+	for _, r := range results {
+		if ei >= 0 && r.vals[ei].k == pNonNil {
+			nErr++
+		} else {
+			okPaths = append(okPaths, r)
+		}
+	}
+	if ei >= 0 && len(okPaths) > 0 && nErr > 0 {
+		results = okPaths
+		for i := 0; i < n; i++ {
+			v := results[0].vals[i]
+			for _, r := range results[1:] {
+				if r.vals[i].k != v.k || r.vals[i].i != v.i || r.vals[i].b != v.b || r.vals[i].j != v.j || v.k == pList || v.k == pShaped {
+					v = pval{k: pPoison}
+					break
+				}
+			}
+			out[i] = v
+		}
+		out[ei] = pval{} // nil on the paths above, non-nil on the error paths: the caller tests it
+		if len(results) == 1 {
+			return out, results[0].heap
+		}
+		return out, nil
 	}
 	for i := 0; i < n; i++ {
-		v := results[0][i]
+		v := results[0].vals[i]
 		for _, r := range results[1:] {
-			if r[i].k != v.k || r[i].i != v.i || r[i].b != v.b {
-				v = pval{}
+			if r.vals[i].k != v.k || r.vals[i].i != v.i || r.vals[i].b != v.b || r.vals[i].j != v.j || v.k == pList || v.k == pShaped {
+				v = pval{k: pPoison}
 				break
 			}
-			v.dep = v.dep || r[i].dep
+			v.dep = v.dep || r.vals[i].dep
 		}
 		out[i] = v
 	}
-	return out
+	if len(results) == 1 && !forked {
+		return out, results[0].heap
+	}
+	return out, nil
 }
 
 func (p *pinterp) val(fr *pframe, v ssa.Value) pval {
 	if k, ok := v.(*ssa.Const); ok {
 		if k.Value == nil {
+			switch k.Type().Underlying().(type) {
+			case *types.Interface, *types.Pointer, *types.Slice, *types.Map, *types.Signature:
+				return pval{k: pNil}
+			}
 			return pval{}
 		}
 		switch k.Value.Kind() {
@@ -121,10 +234,19 @@ func (p *pinterp) val(fr *pframe, v ssa.Value) pval {
 		}
 		return pval{}
 	}
+	if f, ok := v.(*ssa.Function); ok {
+		return pval{k: pFunc, fn: f}
+	}
 	return fr.env[v]
 }
 
-func (p *pinterp) walk(fn *ssa.Function, fr *pframe, blk, prev *ssa.BasicBlock, depth int, results *[][]pval, incomplete *bool) {
+func (p *pinterp) panicAt(fn *ssa.Function, in ssa.Instruction, what string) {
+	if p.onPanic != nil {
+		p.onPanic(fn, in, what)
+	}
+}
+
+func (p *pinterp) walk(fn *ssa.Function, fr *pframe, blk, prev *ssa.BasicBlock, depth int, results *[]presult, incomplete *bool) {
 outer:
 	for {
 		if p.aborted {
@@ -132,7 +254,7 @@ outer:
 			return
 		}
 		fr.visits[blk]++
-		if fr.visits[blk] > 3 {
+		if fr.visits[blk] > 12 {
 			*incomplete = true
 			return
 		}
@@ -158,7 +280,10 @@ outer:
 			case *ssa.BinOp:
 				a, b := p.val(fr, x.X), p.val(fr, x.Y)
 				delete(fr.env, x)
-				if a.k == pInt && b.k == pInt {
+				switch {
+				case a.k == pPoison || b.k == pPoison:
+					fr.env[x] = pval{k: pPoison}
+				case a.k == pInt && b.k == pInt:
 					dep := a.dep || b.dep
 					switch x.Op {
 					case token.ADD:
@@ -180,7 +305,7 @@ outer:
 							fr.env[x] = pval{k: pBool, b: r, dep: dep}
 						}
 					}
-				} else if a.k == pBool && b.k == pBool {
+				case a.k == pBool && b.k == pBool:
 					dep := a.dep || b.dep
 					switch x.Op {
 					case token.EQL:
@@ -192,6 +317,18 @@ outer:
 					case token.OR:
 						fr.env[x] = pval{k: pBool, b: a.b || b.b, dep: dep}
 					}
+				case (x.Op == token.EQL || x.Op == token.NEQ) && (a.k == pNil || b.k == pNil):
+					// nil-ness of a value whose presence the table cell fixes
+					o := a
+					if a.k == pNil {
+						o = b
+					}
+					switch o.k {
+					case pNil:
+						fr.env[x] = pval{k: pBool, b: x.Op == token.EQL}
+					case pTensor, pList, pShape, pData, pRecv, pInputs, pShaped, pNonNil, pFunc:
+						fr.env[x] = pval{k: pBool, b: x.Op == token.NEQ}
+					}
 				}
 			case *ssa.UnOp:
 				delete(fr.env, x)
@@ -202,10 +339,35 @@ outer:
 						fr.env[x] = pval{k: pInt, i: -a.i, dep: a.dep}
 					}
 				case token.NOT:
-					if a.k == pBool {
+					switch a.k {
+					case pBool:
 						fr.env[x] = pval{k: pBool, b: !a.b, dep: a.dep}
+					case pSym:
+						fr.env[x] = pval{k: pSym, i: a.i, b: !a.b}
+					case pPoison:
+						fr.env[x] = a
 					}
 				case token.MUL:
+					switch a.k {
+					case pPoison:
+						fr.env[x] = a
+						continue
+					case pElemAddr:
+						if l := fr.heap.lists[a.i]; l != nil && a.j >= 0 && a.j < int64(len(l)) && l[a.j].k != pUnknown {
+							fr.env[x] = l[a.j]
+							p.listReads++
+						} else if l == nil && fr.heap.poison[a.i] {
+							fr.env[x] = pval{k: pPoison}
+						}
+						continue
+					case pDimAddr:
+						if p.extentOf != nil {
+							if e, ok := p.extentOf(a.i, a.j); ok {
+								fr.env[x] = pval{k: pInt, i: e}
+							}
+						}
+						continue
+					}
 					switch ad := x.X.(type) {
 					case *ssa.FieldAddr:
 						if p.val(fr, ad.X).k == pRecv {
@@ -213,23 +375,110 @@ outer:
 								if v.k != pUnknown {
 									fr.env[x] = v
 								}
-							} else if nn, _ := structOfPtr(ad.X.Type()); nn != nil && p.field != nil {
-								if v, ok := p.field(nn, ad.Field); ok {
-									fr.env[x] = v
+							} else if nn, _ := structOfPtr(ad.X.Type()); nn != nil {
+								got := false
+								if p.field != nil {
+									if v, ok := p.field(fr.heap, nn, ad.Field); ok {
+										fr.env[x] = v
+										fr.fields[ad.Field] = v
+										got = true
+									}
+								}
+								if !got {
+									if bt, ok := x.Type().Underlying().(*types.Basic); ok && bt.Kind() == types.Bool {
+										// the same attribute is read the same way every time along one path
+										fr.env[x] = pval{k: pSym, i: int64(ad.Field)}
+									}
 								}
 							}
 						}
 					case *ssa.IndexAddr:
 						if p.val(fr, ad.X).k == pInputs {
 							if k, ok := constInt(ad.Index); ok {
-								fr.env[x] = pval{k: pTensor, i: k}
+								if p.present != nil && !p.present(k) {
+									fr.env[x] = pval{k: pNil}
+								} else {
+									fr.env[x] = pval{k: pTensor, i: k}
+								}
 							}
 						}
 					}
 				}
+			case *ssa.Alloc:
+				delete(fr.env, x)
+				if pt, ok := x.Type().Underlying().(*types.Pointer); ok {
+					if at, ok := pt.Elem().Underlying().(*types.Array); ok && at.Len() <= 64 {
+						l := make([]pval, at.Len())
+						if isIntType(at.Elem()) {
+							for i := range l {
+								l[i] = pval{k: pInt}
+							}
+						}
+						fr.env[x] = fr.heap.alloc(l)
+					}
+				}
+			case *ssa.MakeSlice:
+				delete(fr.env, x)
+				if st, ok := x.Type().Underlying().(*types.Slice); ok && isIntType(st.Elem()) {
+					if n := p.val(fr, x.Len); n.k == pInt && n.i >= 0 && n.i <= 64 {
+						l := make([]pval, n.i)
+						for i := range l {
+							l[i] = pval{k: pInt}
+						}
+						fr.env[x] = fr.heap.alloc(l)
+					}
+				}
+			case *ssa.IndexAddr:
+				delete(fr.env, x)
+				base, idx := p.val(fr, x.X), p.val(fr, x.Index)
+				if base.k == pPoison || idx.k == pPoison || (base.k == pList && fr.heap.lists[base.i] == nil && fr.heap.poison[base.i]) {
+					fr.env[x] = pval{k: pPoison}
+					break
+				}
+				switch base.k {
+				case pList:
+					l := fr.heap.lists[base.i]
+					if l == nil || idx.k != pInt {
+						break
+					}
+					if idx.i < 0 || idx.i >= int64(len(l)) {
+						if idx.dep {
+							p.panicAt(fn, x, "index out of range")
+						}
+						return
+					}
+					fr.env[x] = pval{k: pElemAddr, i: base.i, j: idx.i}
+				case pShape:
+					if idx.k != pInt || p.rankOf == nil {
+						break
+					}
+					if r, ok := p.rankOf(base.i); ok {
+						if idx.i < 0 || idx.i >= r {
+							if idx.dep {
+								p.panicAt(fn, x, "index out of range")
+							}
+							return
+						}
+						fr.env[x] = pval{k: pDimAddr, i: base.i, j: idx.i}
+					}
+				}
+			case *ssa.FieldAddr:
+				delete(fr.env, x)
+				if b := p.val(fr, x.X); b.k == pShaped {
+					fr.env[x] = b // &dense.AP and the like: still "that tensor"
+				}
+			case *ssa.Index:
+				delete(fr.env, x)
 			case *ssa.Store:
-				if fa, ok := x.Addr.(*ssa.FieldAddr); ok && p.val(fr, fa.X).k == pRecv {
-					fr.fields[fa.Field] = p.val(fr, x.Val)
+				switch ad := p.val(fr, x.Addr); ad.k {
+				case pElemAddr:
+					if l := fr.heap.lists[ad.i]; l != nil && ad.j < int64(len(l)) {
+						l[ad.j] = p.val(fr, x.Val)
+					}
+				default:
+					if fa, ok := x.Addr.(*ssa.FieldAddr); ok && p.val(fr, fa.X).k == pRecv {
+						fr.fields[fa.Field] = p.val(fr, x.Val)
+					}
 				}
 			case *ssa.Convert:
 				p.pass(fr, x, x.X, true)
@@ -242,12 +491,53 @@ outer:
 			case *ssa.TypeAssert:
 				if !x.CommaOk {
 					p.pass(fr, x, x.X, false)
+				} else {
+					delete(fr.env, x)
+					delete(fr.tuples, x)
 				}
 			case *ssa.Slice:
-				// shape[:] keeps the rank; any other re-slicing is unknown
 				delete(fr.env, x)
+				base := p.val(fr, x.X)
 				if x.Low == nil && x.High == nil && x.Max == nil {
-					p.pass(fr, x, x.X, false)
+					if base.k != pUnknown {
+						fr.env[x] = base
+					}
+					break
+				}
+				if (base.k == pList || base.k == pShape) && x.Max == nil {
+					var l []pval
+					if base.k == pList {
+						l = fr.heap.lists[base.i]
+					} else if sl, ok := p.shapeList(base.i); ok {
+						l = sl
+						if l == nil {
+							l = []pval{}
+						}
+					}
+					if l == nil {
+						break
+					}
+					lo, hi := int64(0), int64(len(l))
+					okb := true
+					if x.Low != nil {
+						if v := p.val(fr, x.Low); v.k == pInt {
+							lo = v.i
+						} else {
+							okb = false
+						}
+					}
+					if x.High != nil {
+						if v := p.val(fr, x.High); v.k == pInt {
+							hi = v.i
+						} else {
+							okb = false
+						}
+					}
+					if okb && lo >= 0 && lo <= hi && hi <= int64(len(l)) {
+						// a copy: later stores through one of the two are not seen through the other (the rules
+						// that use lists only read re-sliced views)
+						fr.env[x] = fr.heap.alloc(append([]pval{}, l[lo:hi]...))
+					}
 				}
 			case *ssa.Extract:
 				delete(fr.env, x)
@@ -259,7 +549,9 @@ outer:
 			case *ssa.If:
 				cv := p.val(fr, x.Cond)
 				if cv.k == pBool {
-					if cv.dep {
+					// every known value derives from the table cell (or is a constant): a decided branch that
+					// always ends in an error refuses the cell, whether or not the condition mentions the axis
+					if _, isConst := x.Cond.(*ssa.Const); !isConst {
 						p.decided++
 						if p.onReject != nil && (p.c.edgeRejects(x, cv.b) || edgePanics(x, cv.b)) {
 							p.onReject(fn, x, cv.b)
@@ -272,9 +564,62 @@ outer:
 					prev, blk = blk, nb
 					continue outer
 				}
-				// unknown: fork
-				other := fr.clone()
-				p.walk(fn, other, blk.Succs[0], blk, depth, results, incomplete)
+				if cv.k == pPoison {
+					*incomplete = true
+					return
+				}
+				if cv.k == pSym {
+					if want, ok := fr.syms[cv.i]; ok {
+						take := want != cv.b // the symbol's value, negated when the condition is its negation
+						nb := blk.Succs[1]
+						if take {
+							nb = blk.Succs[0]
+						}
+						prev, blk = blk, nb
+						continue outer
+					}
+					*fr.forked = true
+					other := fr.clone()
+					other.syms[cv.i] = !cv.b // condition true on this edge
+					fr.syms[cv.i] = cv.b
+					p.walk(fn, other, blk.Succs[0], blk, depth, results, incomplete)
+					prev, blk = blk, blk.Succs[1]
+					continue outer
+				}
+				// unknown: fork; a loop whose condition is unknown is unrolled twice at most
+				*fr.forked = true
+				// a nil test of an unknown value tells both edges what the value is
+				var tested ssa.Value
+				nonNilOnTrue := false
+				if bo, ok := x.Cond.(*ssa.BinOp); ok && (bo.Op == token.EQL || bo.Op == token.NEQ) {
+					if isNilConst(bo.Y) && p.val(fr, bo.X).k == pUnknown {
+						tested, nonNilOnTrue = bo.X, bo.Op == token.NEQ
+					} else if isNilConst(bo.X) && p.val(fr, bo.Y).k == pUnknown {
+						tested, nonNilOnTrue = bo.Y, bo.Op == token.NEQ
+					}
+				}
+				refine := func(f *pframe, truth bool) {
+					if tested == nil {
+						return
+					}
+					if truth == nonNilOnTrue {
+						f.env[tested] = pval{k: pNonNil}
+					} else {
+						f.env[tested] = pval{k: pNil}
+					}
+				}
+				if fr.visits[blk.Succs[0]] < 2 {
+					other := fr.clone()
+					refine(other, true)
+					p.walk(fn, other, blk.Succs[0], blk, depth, results, incomplete)
+				} else {
+					*incomplete = true
+				}
+				refine(fr, false)
+				if fr.visits[blk.Succs[1]] >= 2 {
+					*incomplete = true
+					return
+				}
 				prev, blk = blk, blk.Succs[1]
 				continue outer
 			case *ssa.Jump:
@@ -285,7 +630,7 @@ outer:
 				for i, rv := range x.Results {
 					r[i] = p.val(fr, rv)
 				}
-				*results = append(*results, r)
+				*results = append(*results, presult{r, fr.heap})
 				return
 			case *ssa.Panic:
 				return
@@ -320,6 +665,10 @@ func edgePanics(iff *ssa.If, truth bool) bool {
 func (p *pinterp) pass(fr *pframe, dst, src ssa.Value, intOnly bool) {
 	delete(fr.env, dst)
 	v := p.val(fr, src)
+	if v.k == pPoison {
+		fr.env[dst] = v
+		return
+	}
 	if v.k == pUnknown || (intOnly && v.k != pInt) {
 		return
 	}
@@ -330,6 +679,29 @@ func (p *pinterp) pass(fr *pframe, dst, src ssa.Value, intOnly bool) {
 		}
 	}
 	fr.env[dst] = v
+}
+
+// havoc forgets what a call that could not be followed may have changed: the content of lists it received and,
+// when something behind the callee writes tensor headers (Reshape, T, Transpose, SetShape), the shape of tensors.
+func (p *pinterp) havoc(fr *pframe, args []pval, callee ...*ssa.Function) {
+	mayReshape := true
+	if len(callee) == 1 && callee[0] != nil {
+		mayReshape = p.writesHeaders(callee[0])
+	}
+	for _, a := range args {
+		if a.k == pList || a.k == pElemAddr || a.k == pRevList {
+			if fr.heap.lists[a.i] != nil {
+				fr.heap.poison[a.i] = true
+			}
+			fr.heap.lists[a.i] = nil
+		}
+		if a.k == pShaped && mayReshape {
+			if fr.heap.lists[a.j] != nil {
+				fr.heap.poison[a.j] = true
+			}
+			fr.heap.lists[a.j] = nil
+		}
+	}
 }
 
 func (p *pinterp) call(fn *ssa.Function, fr *pframe, x *ssa.Call, depth int) {
@@ -343,15 +715,58 @@ func (p *pinterp) call(fn *ssa.Function, fr *pframe, x *ssa.Call, depth int) {
 		}
 	}
 	if b, ok := cc.Value.(*ssa.Builtin); ok {
-		if b.Name() == "len" && len(cc.Args) == 1 {
-			if a := p.val(fr, cc.Args[0]); a.k == pShape && p.rankOf != nil {
-				if r, ok := p.rankOf(a.i); ok {
-					fr.env[x] = pval{k: pInt, i: r}
+		switch b.Name() {
+		case "len", "cap":
+			if len(cc.Args) == 1 {
+				switch a := p.val(fr, cc.Args[0]); a.k {
+				case pShape:
+					if p.rankOf != nil {
+						if r, ok := p.rankOf(a.i); ok {
+							fr.env[x] = pval{k: pInt, i: r}
+						}
+					}
+				case pPoison:
+					fr.env[x] = a
+				case pList:
+					if l := fr.heap.lists[a.i]; l != nil && b.Name() == "len" {
+						fr.env[x] = pval{k: pInt, i: int64(len(l))}
+					} else if l == nil && fr.heap.poison[a.i] {
+						fr.env[x] = pval{k: pPoison}
+					}
+				case pInputs, pNil:
 				}
 			}
+		case "append":
+			if len(cc.Args) == 2 {
+				a, b2 := p.val(fr, cc.Args[0]), p.val(fr, cc.Args[1])
+				var la, lb []pval
+				okA, okB := false, false
+				switch a.k {
+				case pList:
+					la, okA = fr.heap.lists[a.i], fr.heap.lists[a.i] != nil
+				case pNil:
+					okA = true
+				case pShape:
+					la, okA = p.shapeList(a.i)
+				}
+				switch b2.k {
+				case pList:
+					lb, okB = fr.heap.lists[b2.i], fr.heap.lists[b2.i] != nil
+				case pNil:
+					okB = true
+				case pShape:
+					lb, okB = p.shapeList(b2.i)
+				}
+				if okA && okB {
+					fr.env[x] = fr.heap.alloc(append(append([]pval{}, la...), lb...))
+				}
+			}
+		case "copy":
+			p.havoc(fr, []pval{p.val(fr, cc.Args[0])})
 		}
 		return
 	}
+	// gorgonia / external calls
 	if p.onExt != nil {
 		key := ""
 		var operands []ssa.Value
@@ -372,7 +787,7 @@ func (p *pinterp) call(fn *ssa.Function, fr *pframe, x *ssa.Call, depth int) {
 			for i, o := range operands {
 				vals[i] = p.val(fr, o)
 			}
-			p.onExt(fn, x, key, vals)
+			p.onExt(fn, x, key, vals, fr.heap)
 		}
 	}
 	name, recv := "", ssa.Value(nil)
@@ -386,9 +801,49 @@ func (p *pinterp) call(fn *ssa.Function, fr *pframe, x *ssa.Call, depth int) {
 	}
 	if recv != nil {
 		rv := p.val(fr, recv)
+		if rv.k == pShaped {
+			// the tensor's own (live) shape slice
+			switch name {
+			case "Shape":
+				fr.env[x] = pval{k: pList, i: rv.j}
+			case "Dims":
+				if l := fr.heap.lists[rv.j]; l != nil {
+					fr.env[x] = pval{k: pInt, i: int64(len(l))}
+				}
+			case "Max", "Min", "Sum":
+				args := make([]pval, 0, len(cc.Args)+1)
+				if cc.IsInvoke() {
+					args = append(args, rv)
+				}
+				for _, a := range cc.Args {
+					args = append(args, p.val(fr, a))
+				}
+				if res, ok := p.reduction(fn, x, name, fr, args); ok {
+					fr.tuples[x] = res
+				}
+			case "Reshape":
+				// the header takes the given extents (gorgonia refuses a different element count: not modelled)
+				fr.heap.lists[rv.j] = nil
+				if len(cc.Args) >= 1 {
+					if a := p.val(fr, cc.Args[len(cc.Args)-1]); a.k == pList && fr.heap.lists[a.i] != nil {
+						fr.heap.lists[rv.j] = append([]pval{}, fr.heap.lists[a.i]...)
+						fr.env[x] = pval{k: pNil}
+					}
+				}
+			}
+			return
+		}
+		if rv.k == pList && name == "Clone" {
+			if l := fr.heap.lists[rv.i]; l != nil {
+				fr.env[x] = fr.heap.alloc(append([]pval{}, l...))
+			}
+			return
+		}
 		switch {
 		case rv.k == pTensor && name == "Shape":
 			fr.env[x] = pval{k: pShape, i: rv.i}
+		case rv.k == pTensor && name == "Data":
+			fr.env[x] = pval{k: pData, i: rv.i}
 		case rv.k == pTensor && name == "Dims", rv.k == pShape && name == "Dims":
 			if p.rankOf != nil {
 				if r, ok := p.rankOf(rv.i); ok {
@@ -396,12 +851,168 @@ func (p *pinterp) call(fn *ssa.Function, fr *pframe, x *ssa.Call, depth int) {
 				}
 			}
 		case rv.k == pShape && name == "Clone":
-			fr.env[x] = rv
+			// a private copy of the extents
+			if l, ok := p.shapeList(rv.i); ok {
+				fr.env[x] = fr.heap.alloc(l)
+			} else {
+				fr.env[x] = rv
+			}
 		}
 		return
 	}
 	sc := cc.StaticCallee()
-	if sc == nil || !(isLibFn(sc) || isControlFn(sc)) || len(sc.Blocks) == 0 || depth >= 4 {
+	if sc == nil {
+		args := make([]pval, len(cc.Args))
+		for i, a := range cc.Args {
+			args[i] = p.val(fr, a)
+		}
+		if fv := p.val(fr, cc.Value); !cc.IsInvoke() && fv.k == pFunc && fv.fn != nil {
+			if fnPkgPath(fv.fn) == pkgTensor && isReductionName(strings.TrimSuffix(fv.fn.Name(), "$thunk")) {
+				if res, ok := p.reduction(fn, x, strings.TrimSuffix(fv.fn.Name(), "$thunk"), fr, args); ok {
+					fr.tuples[x] = res
+					return
+				}
+			} else if (isLibFn(fv.fn) || isControlFn(fv.fn)) && len(fv.fn.Blocks) > 0 && depth < 5 {
+				res, h := p.run(fv.fn, args, depth+1, fr.heap.clone())
+				if h != nil {
+					fr.heap = h
+				} else {
+					*fr.forked = true
+					p.havoc(fr, args)
+					for i := range res {
+						switch res[i].k {
+						case pList, pElemAddr, pShaped, pRevList:
+							res[i] = pval{k: pPoison}
+						}
+					}
+				}
+				if len(res) == 1 {
+					if res[0].k != pUnknown {
+						fr.env[x] = res[0]
+					}
+				} else if len(res) > 1 {
+					fr.tuples[x] = res
+				}
+				return
+			}
+		}
+		if p.onDyn != nil && !cc.IsInvoke() {
+			if res, ok := p.onDyn(fn, x, args, fr.heap); ok {
+				if len(res) == 1 {
+					fr.env[x] = res[0]
+				} else {
+					fr.tuples[x] = res
+				}
+				return
+			}
+		}
+		p.havoc(fr, args)
+		return
+	}
+	switch fnPkgPath(sc) {
+	case "slices":
+		if strings.HasPrefix(sc.Name(), "Contains") && len(cc.Args) == 2 {
+			l, v := p.val(fr, cc.Args[0]), p.val(fr, cc.Args[1])
+			if l.k == pList && v.k == pInt && fr.heap.lists[l.i] != nil {
+				found, known := false, true
+				for _, e := range fr.heap.lists[l.i] {
+					if e.k != pInt {
+						known = false
+					} else if e.i == v.i {
+						found = true
+					}
+				}
+				if known || found {
+					fr.env[x] = pval{k: pBool, b: found, dep: v.dep}
+				}
+			}
+		}
+		return
+	case "sort":
+		switch sc.Name() {
+		case "Reverse":
+			if a := p.val(fr, cc.Args[0]); a.k == pList {
+				fr.env[x] = pval{k: pRevList, i: a.i}
+			}
+			return
+		case "Sort", "Stable":
+			a := p.val(fr, cc.Args[0])
+			if a.k == pList || a.k == pRevList {
+				l := fr.heap.lists[a.i]
+				all := l != nil
+				for _, e := range l {
+					if e.k != pInt {
+						all = false
+					}
+				}
+				if all {
+					if a.k == pRevList {
+						sort.SliceStable(l, func(i, j int) bool { return l[i].i > l[j].i })
+					} else {
+						sort.SliceStable(l, func(i, j int) bool { return l[i].i < l[j].i })
+					}
+				} else {
+					fr.heap.lists[a.i] = nil
+				}
+			}
+			return
+		}
+	}
+	if fnPkgPath(sc) == pkgTensor && sc.Signature.Recv() == nil {
+		switch sc.Name() {
+		case "WithShape":
+			if len(cc.Args) == 1 {
+				switch a := p.val(fr, cc.Args[0]); a.k {
+				case pShape:
+					fr.env[x] = pval{k: pShapeOpt, i: a.i}
+				case pList:
+					if l := fr.heap.lists[a.i]; l != nil {
+						fr.env[x] = pval{k: pShapeOpt, i: -1, j: fr.heap.alloc(append([]pval{}, l...)).i}
+					}
+				}
+			}
+		case "New":
+			if len(cc.Args) == 1 {
+				if a := p.val(fr, cc.Args[0]); a.k == pList {
+					for _, e := range fr.heap.lists[a.i] {
+						if e.k == pShapeOpt {
+							if e.j != 0 {
+								if l := fr.heap.lists[e.j]; l != nil {
+									fr.env[x] = pval{k: pShaped, i: e.i, j: fr.heap.alloc(append([]pval{}, l...)).i}
+								}
+							} else if l, ok := p.shapeList(e.i); ok {
+								fr.env[x] = pval{k: pShaped, i: e.i, j: fr.heap.alloc(l).i}
+							}
+						}
+					}
+				}
+			}
+		}
+		return
+	}
+	if fnPkgPath(sc) == "sort" && sc.Name() == "Ints" && len(cc.Args) == 1 {
+		if a := p.val(fr, cc.Args[0]); a.k == pList {
+			l := fr.heap.lists[a.i]
+			all := l != nil
+			for _, e := range l {
+				if e.k != pInt {
+					all = false
+				}
+			}
+			if all {
+				sort.SliceStable(l, func(i, j int) bool { return l[i].i < l[j].i })
+			} else {
+				fr.heap.lists[a.i] = nil
+			}
+		}
+		return
+	}
+	if !(isLibFn(sc) || isControlFn(sc)) || len(sc.Blocks) == 0 || depth >= 5 {
+		args := make([]pval, len(cc.Args))
+		for i, a := range cc.Args {
+			args[i] = p.val(fr, a)
+		}
+		p.havoc(fr, args)
 		return
 	}
 	args := make([]pval, len(cc.Args))
@@ -415,7 +1026,37 @@ func (p *pinterp) call(fn *ssa.Function, fr *pframe, x *ssa.Call, depth int) {
 	if !any {
 		return
 	}
-	res := p.run(sc, args, depth+1)
+	// the integer content of a list-valued input, as the audited converter (R25: all elements, in order) returns it
+	if sc.Name() == "AnyToIntSlice" && fnPkgPath(sc) == pkgOps && len(args) == 1 && args[0].k == pData && p.inputList != nil {
+		if l, ok := p.inputList(args[0].i); ok {
+			pl := make([]pval, len(l))
+			for i, v := range l {
+				pl[i] = pval{k: pInt, i: v, dep: true}
+			}
+			fr.tuples[x] = []pval{fr.heap.alloc(pl), {k: pNil}}
+			return
+		}
+	}
+	if sc.Name() == "IfScalarToSlice" && fnPkgPath(sc) == pkgOps && len(args) == 1 && args[0].k == pData {
+		fr.env[x] = args[0]
+		return
+	}
+	if p.onLib != nil {
+		p.onLib(fn, x, sc, args, fr.heap)
+	}
+	res, h := p.run(sc, args, depth+1, fr.heap.clone())
+	if h != nil {
+		fr.heap = h
+	} else {
+		*fr.forked = true
+		p.havoc(fr, args, sc)
+		for i := range res {
+			switch res[i].k {
+			case pList, pElemAddr, pShaped, pRevList:
+				res[i] = pval{k: pPoison} // refers to a heap that was not adopted
+			}
+		}
+	}
 	switch len(res) {
 	case 0:
 	case 1:
@@ -425,4 +1066,127 @@ func (p *pinterp) call(fn *ssa.Function, fr *pframe, x *ssa.Call, depth int) {
 	default:
 		fr.tuples[x] = res
 	}
+}
+
+// reduction models the shape contract of gorgonia's Dense.Max/Min/Sum(t, axes...): the listed axes go, all
+// axes go when none is listed (the values are not modelled). ok=false when an operand is not known.
+func (p *pinterp) reduction(fn *ssa.Function, x *ssa.Call, name string, fr *pframe, args []pval) ([]pval, bool) {
+	if len(args) == 0 || args[0].k != pShaped {
+		return nil, false
+	}
+	sh := fr.heap.lists[args[0].j]
+	if sh == nil {
+		return nil, false
+	}
+	shape := make([]int64, len(sh))
+	for i, e := range sh {
+		if e.k != pInt {
+			return nil, false
+		}
+		shape[i] = e.i
+	}
+	var axes []int64
+	for _, a := range args[1:] {
+		switch a.k {
+		case pInt:
+			axes = append(axes, a.i)
+		case pList:
+			l := fr.heap.lists[a.i]
+			if l == nil {
+				return nil, false
+			}
+			for _, e := range l {
+				if e.k != pInt {
+					return nil, false
+				}
+				axes = append(axes, e.i)
+			}
+		case pNil:
+		default:
+			return nil, false
+		}
+	}
+	if p.onReduce != nil {
+		p.onReduce(fn, x, name, shape, axes)
+	}
+	gone := map[int64]bool{}
+	for _, a := range axes {
+		if a < 0 || a >= int64(len(shape)) {
+			return []pval{{k: pNil}, {k: pUnknown}}, true // gorgonia answers with an error
+		}
+		gone[a] = true
+	}
+	var out []pval
+	if len(axes) > 0 {
+		for i, e := range shape {
+			if !gone[int64(i)] {
+				out = append(out, pval{k: pInt, i: e})
+			}
+		}
+	}
+	if out == nil {
+		out = []pval{}
+	}
+	return []pval{{k: pShaped, i: args[0].i, j: fr.heap.alloc(out).i}, {k: pNil}}, true
+}
+
+var headerWriters = map[string]bool{"Reshape": true, "SetShape": true, "T": true, "UT": true, "Transpose": true}
+
+func (p *pinterp) writesHeaders(f *ssa.Function) bool {
+	if p.hdrCache == nil {
+		p.hdrCache = map[*ssa.Function]bool{}
+	}
+	if v, ok := p.hdrCache[f]; ok {
+		return v
+	}
+	res := false
+	for g := range p.c.reachFrom([]*ssa.Function{f}) {
+		for _, b := range g.Blocks {
+			for _, in := range b.Instrs {
+				cl, ok := in.(ssa.CallInstruction)
+				if !ok {
+					continue
+				}
+				cc := cl.Common()
+				name := ""
+				if cc.IsInvoke() {
+					name = cc.Method.Name()
+				} else if sc := cc.StaticCallee(); sc != nil {
+					if fnPkgPath(sc) != pkgTensor {
+						continue
+					}
+					name = sc.Name()
+				} else {
+					res = true // a call through a function value: anything
+				}
+				if headerWriters[name] {
+					res = true
+				}
+			}
+		}
+	}
+	p.hdrCache[f] = res
+	return res
+}
+
+func isReductionName(n string) bool { return n == "Max" || n == "Min" || n == "Sum" }
+
+// shapeList: the extents of input k as a list of known integers.
+func (p *pinterp) shapeList(k int64) ([]pval, bool) {
+	if p.rankOf == nil || p.extentOf == nil {
+		return nil, false
+	}
+	r, ok := p.rankOf(k)
+	if !ok {
+		return nil, false
+	}
+	l := make([]pval, r)
+	for i := range l {
+		e, ok := p.extentOf(k, int64(i))
+		if !ok {
+			return nil, false
+		}
+		l[i] = pval{k: pInt, i: e}
+	}
+	return l, true
 }
